@@ -350,6 +350,26 @@ def build_case(fd, rng, tier, i):
     return d, mfa, regime, balanced
 
 
+def perturb_pair(mfa, rng, delta):
+    """+delta at one entry and -delta at another entry of the same array: totals are preserved, balances by label are not"""
+    arrays = [f for f in mfa.flows.values() if f.values.size > 1 and f.values.dtype.kind == "f"]
+    if not arrays:
+        return None
+    a = arrays[int(rng.integers(0, len(arrays)))]
+    v = a.values
+    i, j = rng.choice(v.size, size=2, replace=False)
+    pi, pj = tuple(int(x) for x in np.unravel_index(int(i), v.shape)), tuple(int(x) for x in np.unravel_index(int(j), v.shape))
+    oi, oj = v[pi].copy(), v[pj].copy()
+    v[pi] = oi + delta
+    v[pj] = oj - delta
+
+    def undo():
+        v[pi] = oi
+        v[pj] = oj
+
+    return undo
+
+
 def perturb(mfa, rng, delta):
     """add delta to (or plant NaN in) one entry of one flow / stock inflow; returns an undo function"""
     arrays = [f for f in mfa.flows.values()] + [s.inflow for s in mfa.stocks.values() if s.process is not None]
@@ -413,6 +433,17 @@ def one(rec, hub, seed, tier, i):
                 call_balance(explicit, raise_error)
             if name in ("nan", "1e3tol"):
                 call_balance(None, bool(rng.integers(0, 2)))
+        finally:
+            undo()
+    # cancelling pairs: the grand total of the array is unchanged, the by-label balance is not
+    for name, dl in [d_ for d_ in deltas if d_[1] is not None][-3:]:
+        undo = perturb_pair(mfa, rng, dl)
+        if undo is None:
+            continue
+        hub.ctx["perturbation"] = "pair:" + name
+        try:
+            for raise_error in (True, False):
+                call_balance(explicit, raise_error)
         finally:
             undo()
     # check_flows: negative entries, NaN, exceptions, verbose
